@@ -51,6 +51,9 @@ structure World where
   faulty   : Bool := false                -- a fetch failure is being injected (`failget`)
   hadConcurrent : Bool := false           -- concurrent writers ran in this scenario (`cacks`)
   hadClose : Bool := false                -- a store was closed in this scenario (`closed`)
+  /-- entries appended by writes that then FAILED (head not persisted): not acknowledged, so not owed
+  to anybody after a restart, and not required to be covered by the cached heads -/
+  unacked  : List Nat := []
   lineNo   : Nat := 0
   nFail    : Nat := 0
   nObs     : Nat := 0
@@ -123,6 +126,25 @@ def World.modelAdd (w : World) (p : Nat) (n : Nat) : World :=
                                                  heads := s'.log.heads.map (fun x => if x.hash == n then e else x) } }
       w.setStore p s''
 
+/-- `ackfail p eN`: the write failed after its entry was appended — the head could not be persisted
+(`Order.addOperation`: lock, append, status, then the head put fails and the call returns its error):
+the entry is in the log and counted in the status; the cached head, the view and the caller's
+acknowledgement are not updated -/
+def World.onAckFail (w : World) (toks : List String) : World :=
+  let p := peerNum (toks.getD 1 "")
+  let n := entryNum (toks.getD 2 "")
+  match w.entry n with
+  | none => w.fail "corr" "ack" s!"unknown entry e{n}"
+  | some e =>
+    let s := w.store p
+    match append w.acl.canAppend s.log (fun t nx => { e with time := t, next := nx }) with
+    | (L', .ok me) =>
+      let st := recalcStatus L'.entries.length s.status me.time
+      let L'' := { L' with entries := L'.entries.map (fun x => if x.hash == n then e else x),
+                           heads := L'.heads.map (fun x => if x.hash == n then e else x) }
+      { w.setStore p { s with log := L'', status := st } with unacked := n :: w.unacked }
+    | (_, .error err) => w.fail "corr" "ack" s!"model refuses ({err}) an append the implementation made: e{n}"
+
 def World.onAck (w : World) (toks : List String) : World :=
   let p := peerNum (toks.getD 1 "")
   let r := toks.getD 2 ""
@@ -175,7 +197,7 @@ def World.onLoadEnd (w : World) (toks : List String) : World :=
 /-- the heads of the announcement being handled, with the tampered ones (`eN!`) marked -/
 def World.opHeads (w : World) : Option (List Entry) :=
   let mk (names : List String) : List Entry := names.filterMap (fun n =>
-    (w.entry (entryNum (n.replace "!" ""))).map (fun e => if n.endsWith "!" then { e with hashOk := false } else e))
+    (w.entry (entryNum (n.replace "!" ""))).map (fun e => if n.endsWith "!" then { e with hashOk := false, sigOk := false } else e))
   match w.pending.headD "" with
   | "inject" => some (mk (commaList (arg w.pending "heads")))
   | "sync" => w.syncSrc.map (fun (q, _) => sortedHeads (w.store q).log)
@@ -204,8 +226,8 @@ def World.onSynced (w : World) (toks : List String) : World :=
   if w.pending.headD "" == "inject" then
     -- manual Sync of crafted heads: the pre-check loop of `Sync` decides the returned error
     let heads := (commaList (arg w.pending "heads")).filterMap (fun n =>
-      (w.entry (entryNum (n.replace "!" ""))).map (fun e => if n.endsWith "!" then { e with hashOk := false } else e))
-    let model := syncPrecheck w.acl heads
+      (w.entry (entryNum (n.replace "!" ""))).map (fun e => if n.endsWith "!" then { e with hashOk := false, sigOk := false } else e))
+    let model := syncPrecheck w.acl (w.curDb + 1) heads
     let impl := toks.getD 2 ""
     if (model == .ok) != (impl == "ok") then
       w.fail "corr" "sync" s!"peer {p}: Sync({arg w.pending "heads"}) model {model}, implementation {impl}"
@@ -289,7 +311,10 @@ def World.onObs1 (w : World) (toks : List String) : World :=
     else (w, s)
   let busy := w.inflight.contains (w.key p)
   let w := if busy then w else
-    w.setDurable (w.key p) (iv ++ (w.durableOf (w.key p)).filter (fun n => !iv.contains n))
+    -- (an entry appended by a write that then failed was never acknowledged and nothing durable points
+    -- to it: it is not owed after a restart)
+    let ivd := iv.filter (fun n => !w.unacked.contains n)
+    w.setDurable (w.key p) (ivd ++ (w.durableOf (w.key p)).filter (fun n => !ivd.contains n))
   -- a log with missing ancestors (a fetch failed): the order in which the store handled the
   -- progress events and the batch is the scheduler's, and the status depends on it: adopt it
   let holes := !(w.entriesOf iv).all (fun e => e.next.all (fun h => iv.contains h))
@@ -356,7 +381,7 @@ def World.onObs1 (w : World) (toks : List String) : World :=
   -- C05 (covers): the cached heads' ancestry covers the whole log
   let roots := (ilocal.getD []) ++ (iremote.getD [])
   let anc := w.ancestry roots
-  let w := if !(iv.all (fun h => anc.contains h)) then
+  let w := if !(iv.all (fun h => anc.contains h || w.unacked.contains h)) then
       w.fail "C05" "covers" s!"peer {p}: cached heads {showNums roots} do not cover the log {showNums iv}" else w
   -- C02-ish: after a sync from q with nothing rejected, p holds everything q held
   -- C09: a database that was not operated on shows no change (contents, status, emitted events)
@@ -538,6 +563,7 @@ def World.step (w : World) (line : String) : World :=
     w.useDb k
   | "pub" => w.onPub toks
   | "ack" => w.onAck toks
+  | "ackfail" => w.onAckFail toks
   | "ackbatch" => w.onAckBatch toks
   | "heads" => w.onHeads toks
   | "loadend" => w.onLoadEnd toks
